@@ -4,14 +4,20 @@ pub use methods::dispatch as lg;
 
 #[dispatch]
 mod methods {
-    use crate::CelValue;
+    use crate::{CelError, CelResult, CelValue};
 
-    fn lg(n: i64) -> i64 {
-        n.ilog2() as i64
+    fn lg(n: i64) -> CelResult<i64> {
+        match n.checked_ilog2() {
+            Some(res) => Ok(res as i64),
+            None => Err(CelError::value("lg() is only defined for positive numbers")),
+        }
     }
 
-    fn lg(n: u64) -> u64 {
-        n.ilog2() as u64
+    fn lg(n: u64) -> CelResult<u64> {
+        match n.checked_ilog2() {
+            Some(res) => Ok(res as u64),
+            None => Err(CelError::value("lg() is only defined for positive numbers")),
+        }
     }
 
     fn lg(n: f64) -> f64 {
